@@ -15,6 +15,9 @@ def nat_nontrivial(tok, res):
         return any(c.isdigit() for c in res)
     if k == "report":
         return res.startswith(("1#", "0#"))
+    if k == "visit":
+        # a supplied SignKey that is not the plain signature (tok[10] != "x"), or a created session
+        return res == "created" or (len(tok) > 10 and tok[10] != "x")
     if k == "adump":
         return not res.startswith("0:")
     return False
@@ -92,7 +95,7 @@ def natpx_class(r):
 
 PROP = {
         "level": "proof",
-        "gens": ["NatTables"],
+        "gens": ["NatTables", "NatClientFacts"],
         "theorems": [
             "Frp.C20.tables_complementary", "Frp.C20.tables_shape", "Frp.C20.byMode_mem", "Frp.C20.modes124_A_sends",
             "Frp.C20.scores_valid", "Frp.C20.recommand_complementary", "Frp.C20.recommand_row",
@@ -121,8 +124,14 @@ PROP = {
             "Frp.C20.close_unregisters", "Frp.C20.close_removes_own_channel", "Frp.C20.registered_only_by_run",
             "Frp.C20.closed_stays_unregistered", "Frp.C20.unregistered_refused", "Frp.C20.session_only_for_live_proxy",
             "Frp.C20.sid_only_from_notifying", "Frp.C20.delivered_is_taken", "Frp.C20.deferred_unregister_witness",
+            "Frp.C20.ctCompare_eq_one_iff", "Frp.C20.sigOk_iff", "Frp.C20.authKey_length", "Frp.C20.sig_wrong_length_refused",
+            "Frp.C20.sig_prefix_or_extension_refused", "Frp.C20.overlap_compare_witness", "Frp.C20.visitorLookupW_refines",
+            "Frp.C20.session_created_only_exact_signature", "Frp.C20.sessions_exact_signature_all_histories",
+            "Frp.C20.sig_compare_shape", "Frp.C20.visitor_critical_shape",
+            "Frp.C20.makehole_plan_shape", "Frp.C20.detectAddrs_is_source", "Frp.C20.instructed_addrs_all_probed",
+            "Frp.C20.send_plan_complete", "Frp.C20.range_addrs_complete", "Frp.C20.truncated_plan_witness",
         ],
-        "extra_targets": ["Frp.Props.C20Proxy"],
+        "extra_targets": ["Frp.Props.C20Proxy", "Frp.Props.C20Client"],
         "engines": [
             {"name": "nat", "quick_n": 5000, "thorough_n": 12000, "thorough_seeds": 5,
              "search_n": 3000, "search_seeds": 3,
@@ -145,12 +154,24 @@ PROP = {
                 "op is run with panics caught (PANIC: => prop=FAILS), a report's result carries a before/after frame of "
                 "sessions and analyzer, adump compares the controller's whole analyzer; a case is non-trivial when a "
                 "classification succeeds, a range is produced, a recommendation is made, a report meets a stored "
-                "session, a session is still stored after settle, or a session produced a response pair. punch engine: "
+                "session, a session is still stored after settle, a session produced a response pair, a visit created a "
+                "session or carried a derived SignKey. SIGNATURE AS A STRING: a third of the visits supply a SignKey derived "
+                "from the right one for (secret, timestamp) — every proper prefix length 0..31, a proper suffix, the right "
+                "one followed by bytes, one character dropped / replaced at every position, right up to position k then "
+                "junk, upper case, literals (empty, blank, 32 zeros, md5 of nothing, non-hex) — next to the right one for "
+                "another secret / timestamp; the Lean engine computes both strings with a real MD5 (Frp.Md5) and replays "
+                "HandleVisitor's critical section on the message as it arrives (NatSign.visitorLookupW); predicate on the "
+                "implementation's answer: 'created' only if the supplied string equals hex(md5(proxy secret ++ message "
+                "timestamp)) byte for byte, the proxy is registered and the user allowed. punch engine: "
                 "real ExchangeInfo + MakeHole of both parties on loopback over real MessageTransporters and a real "
                 "Controller (all five modes, noise datagrams incl. well-formed same-key messages of another session with "
                 "Response true / false at both or one socket, key mismatch, insider datagram, late response), single real "
                 "waitDetectMessage runs over a queued inbox (pwdm: own / foreign / near-miss / empty sid x Response, junk, "
-                "other key, truncated, three sources, any order; prop: the outcome is the memoryless specification's) and "
+                "other key, truncated, three sources, any order; prop: the outcome is the memoryless specification's); "
+                "MULTI-HOMED PARTIES: each side announces its own address, none, or N = 0..12 further local addresses "
+                "(bound, idle sockets: assisted addresses that do not lead to the hole-punching socket; nathole.Prepare "
+                "announces up to 10), in every batch two fast honest sessions with 10..12 on both sides — the instructions "
+                "come from the real Controller, both real MakeHole runs must return the peer's address; and "
                 "the sid-message codec; non-trivial when a message decodes, a wait returns or two MakeHole runs ended. "
                 "natpx engine: REAL server-side xtcp proxies (proxy.NewProxy(xtcp).Run()/Close() of server/proxy/xtcp.go with "
                 "their sid-dispatch goroutine) on a real ResourceController + nathole.Controller; the harness never calls "
@@ -170,6 +191,18 @@ PROP = {
             "model Frp/Model/NatHole.lean written by hand; tied by the nat engine (real ClassifyNATFeature, getRangePorts, "
             "Analyzer.GetRecommandBehaviors/ReportSuccess, Controller.ListenClient/CloseClient/HandleVisitor/HandleClient/HandleReport)",
             "verif hook pkg/nathole/verif_export.go (read-only exports: getRangePorts, scores, session ids)",
+            "translator generator NatClientFacts (go/ast over pkg/nathole/controller.go, nathole.go, pkg/util/util/util.go) "
+            "regenerates Frp/Gen/NatClientFacts.lean on every run: the condition guarding HandleVisitor's 'auth failed' "
+            "return classified as a comparison of the two WHOLE strings or 'other' (util.ConstantTimeEqString followed into "
+            "its body), the statements of the critical section and of util.GetAuthKey; the value of MakeHole's "
+            "detectAddrs at the send loop by symbolic execution (append / slices.Compact / slice expression / unknown "
+            "statement) for sender | other x with | without candidate ports, the send loop's ranges and exits, writes to "
+            "the instruction, the range-probing loops; pinned by sig_compare_shape, visitor_critical_shape, "
+            "makehole_plan_shape; detectAddrs_is_source proves the model's detectAddrs equal to the regenerated term",
+            "model Frp/Model/NatSign.lean (util.GetAuthKey with the MD5 of Frp/Model/Md5.lean, subtle.ConstantTimeCompare "
+            "byte by byte, HandleVisitor's critical section on the wire-level message) written by hand; crypto/subtle's "
+            "ConstantTimeCompare (length test, then OR of XORs) is standard-library code taken from its documentation; "
+            "tied by the nat engine's visit ops (derived SignKey strings)",
             "model Frp/Model/NatPunch.lean (MakeHole send plan, waitDetectMessage loop, sid codec as decodes/does not, "
             "many-socket result hand-over) written by hand; tied by the punch engine (real ExchangeInfo, MakeHole, "
             "EncodeMessage/DecodeMessageInto, transport.MessageTransporter Do/Dispatch)",
@@ -178,7 +211,10 @@ PROP = {
             "Controller.HandleVisitor; verif export VerifClients)",
         ],
         "assumptions": [
-            "md5 treated as injective (analysis keys and sign keys are represented by their md5 input)",
+            "md5 treated as injective for ANALYSIS keys (represented by their md5 input); the abstract session model "
+            "NatHole.step still represents a sign key by its md5 input, but the wire-level model NatSign.visitorLookupW "
+            "computes the 32-character signature with a real MD5 and refines the abstract step "
+            "(visitorLookupW_refines), so the signature clause does not rest on that assumption",
             "GenSid never repeats a live session id (model: visitorLookup is not enabled for a stored sid)",
             "controller-only model (nat engine, NatHole.step): the owner loop of an xtcp proxy receives from sidCh exactly "
             "while its config is registered; since 8d80cd3 this only decides whether the notify is received, not whether "
@@ -197,14 +233,14 @@ PROP = {
             "ephemeral port range so that a receiver's range probes cannot reach its own randomly bound sockets, and get "
             "4 MB receive buffers (low-TTL probes are not lost in transit on loopback); with net.core.rmem_max < 1 MB the "
             "many-socket modes are skipped",
-            "the many-socket hand-over of MakeHole can lose the result (KNOWN_FINDINGS C20-makehole-lost-result, open): "
-            "honest_peers_meet_steps is about the messages; handover_main_first_partial / handover_buffered_never_lost "
-            "cover the hand-over for the current / the repaired code",
+            "the many-socket hand-over of MakeHole could lose the result (KNOWN_FINDINGS C20-makehole-lost-result, fixed by "
+            "0205ff9: buffered result channel): honest_peers_meet_steps is about the messages; handover_lost_witness / "
+            "handover_main_first_partial describe the unbuffered hand-over, handover_buffered_never_lost the current code",
         ],
     }
 
 META = {
-        "engine": "lean+translate(NatTables)+harness(nat,punch,natpx)",
+        "engine": "lean+translate(NatTables,NatClientFacts)+harness(nat,punch,natpx)",
         "design_ref": "DESIGN.md §6 C20",
         "technique": "Lean 4: decide over regenerated behaviour tables, invariant over all recommend/report histories, "
                      "small-step session model with rank argument; differential correspondence with the real nathole code",
@@ -218,7 +254,18 @@ META = {
                 "either column assignment, and so for every history, the party that is not the sender is told to read for "
                 "longer than the sender is held back (1 s) and told to wait (tables_timing, analysis_timing; part of the "
                 "predicate fullOk evaluated on the implementation's responses). Sessions are created only for a "
-                "correctly signed request by an allowed user naming a registered proxy (allow list: C08 fix), responses "
+                "correctly signed request by an allowed user naming a registered proxy (allow list: C08 fix) — the "
+                "signature taken as the STRING the visitor supplies: HandleVisitor's test (util.ConstantTimeEqString = "
+                "subtle.ConstantTimeCompare, modelled byte by byte, against hex(md5(secret ++ timestamp)) computed with a real "
+                "MD5) passes iff the supplied string equals the expected one byte for byte (sigOk_iff, "
+                "ctCompare_eq_one_iff); every proper prefix down to one character, every extension, every string whose "
+                "length is not 32 is refused (sig_prefix_or_extension_refused, sig_wrong_length_refused, "
+                "authKey_length); over all histories of wire-level messages a stored session was created by a request "
+                "carrying exactly the signature for the secret registered at that moment "
+                "(session_created_only_exact_signature, sessions_exact_signature_all_histories); the wire-level critical "
+                "section refines the abstract one (visitorLookupW_refines); comparing only the overlapping part would "
+                "accept a one-character prefix (overlap_compare_witness); the shape of the comparison and of the critical "
+                "section is regenerated from controller.go / util.go (sig_compare_shape, visitor_critical_shape). Responses "
                 "go only to the session's visitor transporter and to a transporter that submitted a NatHoleClient for "
                 "that sid, every handler step strictly lowers a rank, and in every reachable state every stored session "
                 "has an enabled handler step (handler_never_stuck; the notify send is bounded by NatHoleTimeout since "
@@ -241,12 +288,21 @@ META = {
                 "anywhere change nothing (foreign_sid_anywhere, waitLoop_filter_harmless); "
                 "for every instruction pair of a successful analysis two parties bound at addresses they reported, with "
                 "the same key and any harmless noise, both return with the other's address (honest_peers_meet_steps); "
-                "with different keys nobody returns. OPEN finding: in the many-socket modes the hand-over of the result "
-                "inside MakeHole can be lost (handover_lost_witness; repaired model: handover_buffered_never_lost). "
+                "with different keys nobody returns. What MakeHole probes one by one is the term REGENERATED from "
+                "nathole.go by symbolic execution — Compact(assisted ++ candidate) for a sender, Compact(candidate) / "
+                "nothing for the other role without / with candidate ports, no slice expression, no guarded truncation, "
+                "a send loop over exactly that slice and every socket without early exit (makehole_plan_shape, "
+                "detectAddrs_is_source) — so for address lists of ANY length every address the instruction names is sent "
+                "to from every socket, and every candidate IP x port of every range (instructed_addrs_all_probed, "
+                "send_plan_complete, range_addrs_complete); a plan that keeps a bounded number of addresses loses the "
+                "peer's mapped address (truncated_plan_witness). Repaired finding (0205ff9): in the many-socket modes the hand-over of "
+                "the result inside MakeHole could be lost over the unbuffered channel (handover_lost_witness); with the "
+                "buffered channel of the current code it never is (handover_buffered_never_lost). "
                 "The pinned tree's defects stay documented as "
                 "witness theorems about the old functions (analysis_oor_witness, leak_witness, "
                 "allow_users_not_checked_witness over classifyOld/stepOld).",
-        "note": "Trusted: Lean kernel, translator for the tables, hand-written models tied by the nat and punch engines. "
+        "note": "Trusted: Lean kernel, translator for the tables and for the shape of the signature comparison / the MakeHole "
+                "probe plan, hand-written models tied by the nat and punch engines. "
                 "Not covered: real NAT behaviour (TTL, port mapping), Prepare/Discover (STUN), the random-port probing "
                 "as a means of meeting; the 30 s+ final sleep is not waited for in quick runs.",
     }
